@@ -1,6 +1,6 @@
 (* Correspondence glue for C20.  Input: (addr bytes, port int).  Output:
    [ ensurePort(addr, port); SplitHostPort of it; SplitHostPort(addr);
-     NewClientTransport(addr); NewComponentTransport(addr) ]. *)
+     NewClientTransport(addr); NewComponentTransport(addr); NewChecker(addr, "") ]. *)
 From Coq Require Import List ZArith NArith Bool.
 From XV Require Import Lib.Sx Model.Addr.
 Import ListNotations.
@@ -19,8 +19,15 @@ Definition split_sx (r : split_res) : sx :=
 Definition transport_sx (t : transport) : sx :=
   match t with
   | Tcp a => SL [SZ 0; SS a; split_sx (split_host_port a)]
-  | WebSocket a => SL [SZ 1; SS a]
+  | WebSocket a => SL [SZ 1; SS a; SB (ws_is_secure a)]
   | NotSupported => SL [SZ 2]
+  end.
+
+(* NewChecker(addr, ""): error, or (address, domain = host, SplitHostPort of address) *)
+Definition checker_sx (r : option (str * str)) : sx :=
+  match r with
+  | None => SL [SZ 1]
+  | Some (full, h) => SL [SZ 0; SS full; SS h; split_sx (split_host_port full)]
   end.
 
 Definition dec_input (x : sx) : option (str * Z) :=
@@ -33,6 +40,7 @@ Definition run_typed (inp : str * Z) : sx :=
   let '(addr, port) := inp in
   let ep := ensure_port addr port in
   SL [SS ep; split_sx (split_host_port ep); split_sx (split_host_port addr);
-      transport_sx (client_transport addr); transport_sx (component_transport addr)].
+      transport_sx (client_transport addr); transport_sx (component_transport addr);
+      checker_sx (checker_params addr)].
 
 Definition run_C20 : sx -> sx := with_input dec_input run_typed.
